@@ -1,6 +1,17 @@
 """Run the real `ksrsigner()` / `main()` entry point as a whole ceremony against the token emulator, with
 real files, a fault plan, a patched prompt and a pinned clock; build the matching model input line.
-Shared by C03 (all-or-nothing), C10 (successive ceremonies) and C17 (digest display)."""
+Shared by C03 (all-or-nothing) and C10 (successive ceremonies).
+
+Besides the driver this module holds the INDEPENDENT judges of what a ceremony leaves at the output path:
+  * `skr_document()`  — ElementTree reader of the WHOLE file (a strict XML parser: bytes after the document element,
+    an unclosed element, a second root are errors) into the JSON shape of `lib.response_j`, bundles in document order;
+  * `skr_problems()`  — per bundle, over exactly the published keys: identifiers unique, every key tag that of its own
+    RDATA (dnspython), every signature attributed to exactly one published key (identifier, tag, algorithm), covering
+    the bundle's own inception/expiration, and accepted by dnspython's `validate_rrsig` with ONLY the named key on offer;
+    optionally the schema roles (published 257 / revoked 385 / signers of slot i, by slot NUMBER) and the echoed ZSKs;
+  * `output_files()`  — the family of files a ceremony may find at its output path (absent, short, 300 kB filler,
+    an earlier / longer SKR).
+None of them calls into /repo."""
 
 from __future__ import annotations
 
@@ -24,6 +35,10 @@ import lib
 import signer_scenarios as S
 
 SENTINEL = b"PRE-EXISTING OUTPUT - MUST SURVIVE AN UNSUCCESSFUL RUN\n"
+# longer than any SKR these ceremonies write (a 9-bundle, two-KSK SKR is about 30 kB); every line differs so that a stale
+# tail is never mistaken for padding
+FILLER_300K = b"".join(b"<!-- stale line %06d of an earlier, longer file at the output path -->\n" % i for i in range(4400))
+PREV_MODES = ("config", "cli", "both")  # where the previous SKR's file name comes from
 
 
 def scratch_dir(tag: str) -> Path:
@@ -62,13 +77,15 @@ def request_policy_for(sc: S.Scenario, extra: dict[str, Any] | None = None) -> d
     return p
 
 
-def config_dict(sc: S.Scenario, schema_name: str, files: dict[str, str | None], rp_extra: dict[str, Any] | None = None) -> dict[str, Any]:
+def config_dict(sc: S.Scenario, schema_name: str, files: dict[str, str | None], rp_extra: dict[str, Any] | None = None, ksk_policy_extra: dict[str, Any] | None = None) -> dict[str, Any]:
     hsm = {f"hsm{i}": {"module": m["path"], "pin": m.get("pin", "1234")} for i, m in enumerate(sc.modules)}
+    # the schema as LISTED in the configuration (possibly not in ascending slot order; the slot number decides)
+    listed = sc.schema_listed() if hasattr(sc, "schema_listed") else sc.schema
     d: dict[str, Any] = {
         "hsm": hsm,
         "keys": {name: k["entry"] for name, k in sc.ksks.items()},
-        "schemas": {schema_name: {int(s): dict(a) for s, a in sc.schema.items()}},
-        "ksk_policy": {"ttl": sc.ksk_ttl, "publish_safety": "P10D", "retire_safety": "P10D", "max_signature_validity": "P21D", "min_signature_validity": "P21D", "max_validity_overlap": "P12D", "min_validity_overlap": "P9D"},
+        "schemas": {schema_name: {int(s): dict(a) for s, a in listed.items()}},
+        "ksk_policy": dict({"ttl": sc.ksk_ttl, "publish_safety": "P10D", "retire_safety": "P10D", "max_signature_validity": "P21D", "min_signature_validity": "P21D", "max_validity_overlap": "P12D", "min_validity_overlap": "P9D"}, **(ksk_policy_extra or {})),
         "request_policy": request_policy_for(sc, rp_extra),
         "response_policy": {"num_bundles": len(sc.layout)},
         "filenames": {k: v for k, v in files.items() if v is not None},
@@ -102,8 +119,16 @@ def run_ceremony(
     preexisting: bytes | None = SENTINEL,
     cfg_mutator: Any = None,
     hsm_arg: str | None = None,
+    ksk_policy_extra: dict[str, Any] | None = None,
+    files_via: str = "config",
 ) -> dict[str, Any]:
-    """One ceremony on the real entry point. Returns observations + the model input line."""
+    """One ceremony on the real entry point. Returns observations + the model input line.
+
+    prev_xml / prev_cli_xml: the previous SKR named in the configuration (`filenames.previous_skr`) / on the command line
+    (`--previous_skr`); when both are given the command line wins (theorem cli_previous_skr_wins).
+    preexisting: the bytes found at the output path before the run (None = no file).
+    files_via: "config" = KSR and output path come from `filenames:`; "cli" = from the positional arguments (the
+    configuration then names other, non-existent files)."""
     from kskm.common.config import KSKMConfig
     from kskm.ksr.load import request_from_xml
     from kskm.skr.load import response_from_xml
@@ -128,16 +153,24 @@ def run_ceremony(
         out_path.write_bytes(preexisting)
     elif out_path.exists():
         out_path.unlink()
-    cfgd = config_dict(sc, "s", {"input_ksr": str(ksr_path), "previous_skr": str(prev_path) if prev_path else None, "output_skr": str(out_path)}, rp_extra)
+    cli_files = files_via == "cli"
+    decoy = workdir / "not-this-one"
+    cfgd = config_dict(
+        sc,
+        "s",
+        {"input_ksr": str(decoy / "ksr.xml") if cli_files else str(ksr_path), "previous_skr": str(prev_path) if prev_path else None, "output_skr": str(decoy / "skr.xml") if cli_files else str(out_path)},
+        rp_extra,
+        ksk_policy_extra,
+    )
     if cfg_mutator:
         cfgd = cfg_mutator(cfgd)
     cfg_path = workdir / "ksrsigner.yaml"
-    cfg_path.write_text(yaml.safe_dump(cfgd))
+    cfg_path.write_text(yaml.safe_dump(cfgd, sort_keys=False))  # (a YAML mapping is ordered: keep the schema's listing order)
     world = sc.world()
     prompt = Prompt(answer)
     if now_us is None:
         now_us = lib.dt_us(sc.start) - 5 * lib.DAY_US
-    obs: dict[str, Any] = {"world": world, "prompt": prompt}
+    obs: dict[str, Any] = {"world": world, "prompt": prompt, "preexisting": preexisting, "prev_mode": "none" if (prev_xml is None and prev_cli_xml is None) else "both" if (prev_xml is not None and prev_cli_xml is not None) else "cli" if prev_cli_xml is not None else "config"}
     stdout = io.StringIO()
     orig_input = builtins.input
     with world.installed(), C.Oracles() as orc, lib.PinnedClock() as clock, contextlib.redirect_stdout(stdout):
@@ -145,7 +178,7 @@ def run_ceremony(
         builtins.input = prompt
         try:
             if use_main:
-                obs["outcome"], obs["exit"] = run_main(tool, workdir, cfg_path, schema_arg, force, hsm_arg)
+                obs["outcome"], obs["exit"] = run_main(tool, workdir, cfg_path, schema_arg, force, hsm_arg, prev_cli_path, (ksr_path, out_path) if cli_files else None)
             else:
                 try:
                     config = KSKMConfig.from_dict(copy.deepcopy(cfgd))  # (_transform_config pops keys out of nested dicts)
@@ -154,7 +187,7 @@ def run_ceremony(
                     obs["outcome"] = lib.classify_exception(exc)
                 if config is not None:
                     args = argparse.Namespace(
-                        schema=schema_arg, previous_skr=(str(prev_cli_path) if prev_cli_path else None), ksr=None, skr=None, config=str(cfg_path), force=force, hsm=hsm_arg,
+                        schema=schema_arg, previous_skr=(str(prev_cli_path) if prev_cli_path else None), ksr=(str(ksr_path) if cli_files else None), skr=(str(out_path) if cli_files else None), config=str(cfg_path), force=force, hsm=hsm_arg,
                         log_ksr_contents=False, log_skr_contents=False, log_previous_skr_contents=False, debug=False, syslog=False,
                     )
                     obs["outcome"] = lib.run_impl(lambda: tool.ksrsigner(logging.getLogger("verif"), args, config), bool)
@@ -178,8 +211,11 @@ def run_ceremony(
                 return None
             return lib.run_impl(lambda: fn(text), conv)
 
-        actions = None
-        if schema_arg in config.schemas:
+        # the schema the model follows is read off the configuration document itself, slot NUMBER -> actions (never the
+        # position in the listing), not through the repository's get_schema(): a loader that renumbers or drops slots is
+        # then a model/implementation difference
+        actions = listed_actions(cfgd, schema_arg)
+        if actions is None and schema_arg in config.schemas:
             sch = config.get_schema(schema_arg)
             actions = [{"slot": int(n), "action": {"publish": list(a.publish), "sign": list(a.sign), "revoke": list(a.revoke)}} for n, a in sch.actions.items()]
         obs["line"] = {
@@ -203,13 +239,36 @@ def run_ceremony(
     return obs
 
 
-def run_main(tool: Any, workdir: Path, cfg_path: Path, schema_arg: str, force: bool, hsm_arg: str | None) -> tuple[Any, int]:
+def listed_actions(cfgd: dict[str, Any], schema_arg: str) -> list[dict[str, Any]] | None:
+    """`schemas.<name>` of the configuration document as slot number -> {publish, sign, revoke} (a string stands for a
+    one-element list, a missing entry for none), in listing order.  None when the name is not configured or the section
+    is not of that plain form."""
+
+    def as_list(x: Any) -> list[str]:
+        if x is None:
+            return []
+        return [x] if isinstance(x, str) else [str(v) for v in x]
+
+    try:
+        section = cfgd["schemas"]
+        if schema_arg not in section:
+            return None
+        return [{"slot": int(n), "action": {"publish": as_list(a.get("publish")), "sign": as_list(a.get("sign")), "revoke": as_list(a.get("revoke"))}} for n, a in section[schema_arg].items()]
+    except Exception:  # noqa: BLE001
+        return None
+
+
+def run_main(tool: Any, workdir: Path, cfg_path: Path, schema_arg: str, force: bool, hsm_arg: str | None, prev_cli_path: Path | None = None, cli_files: tuple[Path, Path] | None = None) -> tuple[Any, int]:
     """Call main() in-process: argv patched, cwd = workdir (main() opens a log file there)."""
     argv = ["ksrsigner", "--config", str(cfg_path), "--schema", schema_arg]
     if force:
         argv.append("--force")
     if hsm_arg:
         argv += ["--hsm", hsm_arg]
+    if prev_cli_path is not None:
+        argv += ["--previous_skr", str(prev_cli_path)]
+    if cli_files is not None:
+        argv += [str(cli_files[0]), str(cli_files[1])]
     old_argv, old_cwd = sys.argv, os.getcwd()
     root = logging.getLogger()
     before = list(root.handlers)
@@ -240,3 +299,228 @@ def canon_written(xml_bytes: bytes) -> Any:
     from kskm.skr.load import response_from_xml
 
     return S.response_sorted_j(response_from_xml(xml_bytes.decode()))
+
+
+# --------------------------------------------------------------------------------------
+# independent judges of the file at the output path (ElementTree + dnspython; nothing from /repo)
+# --------------------------------------------------------------------------------------
+
+_DURATION = None
+
+
+def duration_us(text: str) -> int | None:
+    """xsd:duration without years / months -> microseconds (None when it is not of that form)."""
+    import re
+
+    global _DURATION
+    if _DURATION is None:
+        _DURATION = re.compile(r"^P(?:(\d+)W)?(?:(\d+)D)?(?:T(?:(\d+)H)?(?:(\d+)M)?(?:(\d+)S)?)?$")
+    m = _DURATION.match(text.strip())
+    if not m or text.strip() in ("P", "PT") or text.strip().endswith("T"):
+        return None
+    w, d, h, mi, s = (int(x) if x else 0 for x in m.groups())
+    return ((((w * 7 + d) * 24 + h) * 60 + mi) * 60 + s) * 10**6
+
+
+def skr_document(xml_bytes: bytes) -> dict[str, Any]:
+    """The WHOLE file, read with ElementTree, in the shape of lib.response_j (bundles / keys / signatures in DOCUMENT
+    order).  Raises on anything that is not exactly one well-formed SKR document (e.g. bytes after `</KSR>`)."""
+    import xml.etree.ElementTree as ET
+    from datetime import datetime
+
+    root = ET.fromstring(xml_bytes.decode("utf-8"))
+    if root.tag != "KSR":
+        raise ValueError(f"root element is {root.tag}")
+
+    def txt(e: Any, tag: str) -> str:
+        c = e.findall(tag)
+        if len(c) != 1:
+            raise ValueError(f"{len(c)} <{tag}> elements in <{e.tag}>")
+        return (c[0].text or "").strip()
+
+    def ts(e: Any, tag: str) -> int:
+        return lib.dt_us(datetime.fromisoformat(txt(e, tag)))
+
+    def policy(e: Any) -> dict[str, Any]:
+        algs = []
+        for a in e.findall("SignatureAlgorithm"):
+            kids = list(a)
+            if len(kids) != 1:
+                raise ValueError("SignatureAlgorithm without exactly one parameter element")
+            k = kids[0]
+            algs.append({"kind": k.tag.lower(), "bits": int(k.get("size")), "algorithm": int(a.get("algorithm")), "exponent": None if k.get("exponent") is None else int(k.get("exponent"))})
+        out: dict[str, Any] = {"algorithms": algs}
+        for name, tag in (("publishSafety", "PublishSafety"), ("retireSafety", "RetireSafety"), ("maxSignatureValidity", "MaxSignatureValidity"), ("minSignatureValidity", "MinSignatureValidity"), ("maxValidityOverlap", "MaxValidityOverlap"), ("minValidityOverlap", "MinValidityOverlap")):
+            out[name] = duration_us(txt(e, tag))
+        return out
+
+    resp = root.findall("Response")
+    if len(resp) != 1 or len(list(root)) != 1:
+        raise ValueError("not exactly one <Response> under <KSR>")
+    rp = resp[0].find("ResponsePolicy")
+    if rp is None:
+        raise ValueError("no <ResponsePolicy>")
+    bundles = []
+    for b in resp[0].findall("ResponseBundle"):
+        keys = [
+            {"keyIdentifier": k.get("keyIdentifier"), "keyTag": int(k.get("keyTag")), "ttl": int(txt(k, "TTL")), "flags": int(txt(k, "Flags")), "protocol": int(txt(k, "Protocol")), "algorithm": int(txt(k, "Algorithm")), "publicKey": txt(k, "PublicKey")}
+            for k in b.findall("Key")
+        ]
+        sigs = []
+        for s in b.findall("Signature"):
+            tc = txt(s, "TypeCovered")
+            sigs.append(
+                {
+                    "keyIdentifier": s.get("keyIdentifier"),
+                    "ttl": int(txt(s, "TTL")),
+                    "typeCovered": {"DNSKEY": 48}.get(tc, tc),
+                    "algorithm": int(txt(s, "Algorithm")),
+                    "labels": int(txt(s, "Labels")),
+                    "originalTtl": int(txt(s, "OriginalTTL")),
+                    "expiration": ts(s, "SignatureExpiration"),
+                    "inception": ts(s, "SignatureInception"),
+                    "keyTag": int(txt(s, "KeyTag")),
+                    "signersName": txt(s, "SignersName"),
+                    "signatureData": txt(s, "SignatureData"),
+                }
+            )
+        bundles.append({"id": b.get("id"), "inception": ts(b, "Inception"), "expiration": ts(b, "Expiration"), "keys": keys, "signatures": sigs, "signers": None})
+    return {"id": root.get("id"), "serial": int(root.get("serial")), "domain": root.get("domain"), "timestamp": None, "zskPolicy": policy(rp.find("ZSK")), "kskPolicy": policy(rp.find("KSK")), "bundles": bundles}
+
+
+def skr_problems(xml_bytes: bytes, *, num_bundles: int | None = None, roles: list[dict[str, Any]] | None = None, request_xml: str | None = None) -> list[str]:
+    """Everything wrong with the file as a signed key response, judged without /repo.  [] = a relying party that follows
+    RFC 4034/4035 (dnspython) accepts every bundle over exactly its published keys.
+    roles[i] = {"publish": {label…}, "revoke": {label…}, "sign": {label…}} of slot i+1 (labels, already mapped from
+    the configuration's key names): published KSKs must be exactly publish ∪ sign minus revoke with flags 257, revoked ones
+    flags 385, signatures exactly one per signer.  request_xml: the KSR whose ZSKs (flags without the SEP bit) and
+    inception / expiration / ids each bundle must echo."""
+    import base64
+
+    import dns.dnssec
+    import dns.name
+    import dns.rdataclass
+    import dns.rdatatype
+    import dns.rrset
+    from dns.rdtypes.ANY.DNSKEY import DNSKEY
+    from dns.rdtypes.ANY.RRSIG import RRSIG
+
+    try:
+        doc = skr_document(xml_bytes)
+    except Exception as exc:  # noqa: BLE001
+        return [f"not one well-formed SKR document: {type(exc).__name__}: {str(exc)[:160]}"]
+    bad: list[str] = []
+    if num_bundles is not None and len(doc["bundles"]) != num_bundles:
+        bad.append(f"{len(doc['bundles'])} bundles, {num_bundles} requested")
+    if not doc["bundles"]:
+        bad.append("no bundles")
+    req_bundles = None
+    if request_xml is not None:
+        import xml.etree.ElementTree as ET
+
+        try:
+            rq = ET.fromstring(request_xml)
+            req_bundles = rq.find("Request").findall("RequestBundle")
+            if rq.get("id") != doc["id"] or rq.get("serial") != str(doc["serial"]) or rq.get("domain") != doc["domain"]:
+                bad.append("id / serial / domain of the request not echoed")
+            if len(req_bundles) != len(doc["bundles"]):
+                bad.append(f"{len(doc['bundles'])} response bundles for {len(req_bundles)} request bundles")
+                req_bundles = None
+        except Exception:  # noqa: BLE001  (a request the harness mangled on purpose: nothing to echo)
+            req_bundles = None
+    root = dns.name.root
+    for i, b in enumerate(doc["bundles"]):
+        where = f"bundle {i + 1}"
+        ids = [k["keyIdentifier"] for k in b["keys"]]
+        if len(set(ids)) != len(ids):
+            bad.append(f"{where}: key identifier used by more than one key: {sorted(x for x in set(ids) if ids.count(x) > 1)}")
+        if not b["keys"]:
+            bad.append(f"{where}: no keys")
+            continue
+        if not b["signatures"]:
+            bad.append(f"{where}: no signature")
+        ttls = {k["ttl"] for k in b["keys"]}
+        if len(ttls) != 1:
+            bad.append(f"{where}: keys of one RRset with different TTLs {sorted(ttls)}")
+        rdatas = {}
+        try:
+            for k in b["keys"]:
+                rd = DNSKEY(dns.rdataclass.IN, dns.rdatatype.DNSKEY, k["flags"], k["protocol"], k["algorithm"], base64.b64decode(k["publicKey"], validate=True))
+                rdatas[id(k)] = rd
+                if dns.dnssec.key_id(rd) != k["keyTag"]:
+                    bad.append(f"{where}: key {k['keyIdentifier']} carries tag {k['keyTag']}, its RDATA has {dns.dnssec.key_id(rd)}")
+        except Exception as exc:  # noqa: BLE001
+            bad.append(f"{where}: key material unreadable: {type(exc).__name__}: {exc}")
+            continue
+        if len({rd.to_wire() for rd in rdatas.values()}) != len(b["keys"]):
+            bad.append(f"{where}: the same DNSKEY record twice")
+        signer_ids = [s["keyIdentifier"] for s in b["signatures"]]
+        if len(set(signer_ids)) != len(signer_ids):
+            bad.append(f"{where}: more than one signature by the same key")
+        for s in b["signatures"]:
+            named = [k for k in b["keys"] if k["keyIdentifier"] == s["keyIdentifier"]]
+            if len(named) != 1:
+                bad.append(f"{where}: signature by {s['keyIdentifier']} names {len(named)} published keys")
+                continue
+            k = named[0]
+            if k["keyTag"] != s["keyTag"] or k["algorithm"] != s["algorithm"]:
+                bad.append(f"{where}: signature by {s['keyIdentifier']}: tag/algorithm {s['keyTag']}/{s['algorithm']} are not those of the named key {k['keyTag']}/{k['algorithm']}")
+            if k["flags"] & 1 == 0:
+                bad.append(f"{where}: signature by {s['keyIdentifier']}, which is not a key-signing key (flags {k['flags']})")
+            if (s["inception"], s["expiration"]) != (b["inception"], b["expiration"]):
+                bad.append(f"{where}: signature by {s['keyIdentifier']} does not cover the bundle's inception..expiration")
+            if s["typeCovered"] != 48 or s["originalTtl"] not in ttls:
+                bad.append(f"{where}: signature by {s['keyIdentifier']}: type covered / original TTL do not fit the key set")
+            try:
+                rrset = dns.rrset.RRset(root, dns.rdataclass.IN, dns.rdatatype.DNSKEY)
+                for kk in b["keys"]:
+                    rrset.add(rdatas[id(kk)], ttl=s["originalTtl"])
+                only = dns.rrset.RRset(root, dns.rdataclass.IN, dns.rdatatype.DNSKEY)
+                only.add(rdatas[id(k)], ttl=s["originalTtl"])
+                rrsig = RRSIG(dns.rdataclass.IN, dns.rdatatype.RRSIG, dns.rdatatype.DNSKEY, s["algorithm"], s["labels"], s["originalTtl"], s["expiration"] // 10**6, s["inception"] // 10**6, s["keyTag"], dns.name.from_text(s["signersName"]), base64.b64decode(s["signatureData"], validate=True))
+                dns.dnssec.validate_rrsig(rrset, rrsig, {root: only}, now=s["inception"] // 10**6 + 1)
+            except Exception as exc:  # noqa: BLE001
+                bad.append(f"{where}: signature by {s['keyIdentifier']} rejected by dnspython over the published key set: {type(exc).__name__}: {str(exc)[:120]}")
+        if roles is not None and i < len(roles):
+            want = roles[i]
+            revoked = set(want["revoke"])
+            published = (set(want["publish"]) | set(want["sign"])) - revoked
+            got_pub = {k["keyIdentifier"] for k in b["keys"] if k["flags"] == 257}
+            got_rev = {k["keyIdentifier"] for k in b["keys"] if k["flags"] & 1 and k["flags"] & 0x80}
+            if got_pub != published or got_rev != revoked:
+                bad.append(f"{where}: KSKs published {sorted(got_pub)} / revoked {sorted(got_rev)}; schema slot {i + 1} says {sorted(published)} / {sorted(revoked)}")
+            if sorted(signer_ids) != sorted(set(want["sign"])):
+                bad.append(f"{where}: signatures by {sorted(signer_ids)}; schema slot {i + 1} says {sorted(set(want['sign']))}")
+        if req_bundles is not None:
+            qb = req_bundles[i]
+            if qb.get("id") != b["id"]:
+                bad.append(f"{where}: id {b['id']} is not the request bundle's {qb.get('id')}")
+            from datetime import datetime
+
+            if (lib.dt_us(datetime.fromisoformat(qb.find("Inception").text.strip())), lib.dt_us(datetime.fromisoformat(qb.find("Expiration").text.strip()))) != (b["inception"], b["expiration"]):
+                bad.append(f"{where}: inception / expiration of the request bundle not echoed")
+            want_z = {(k.get("keyIdentifier"), int(k.find("Flags").text), int(k.find("Algorithm").text), k.find("PublicKey").text.strip()) for k in qb.findall("Key")}
+            got_z = {(k["keyIdentifier"], k["flags"], k["algorithm"], k["publicKey"]) for k in b["keys"] if k["flags"] & 1 == 0}
+            if want_z != got_z:
+                bad.append(f"{where}: ZSKs {sorted(x[0] for x in got_z)} are not the request bundle's {sorted(x[0] for x in want_z)} (identifier, flags, algorithm, key)")
+    return bad
+
+
+def roles_of(sc: S.Scenario) -> list[dict[str, Any]]:
+    """Schema slots 1..n of a scenario with key NAMES replaced by token labels (what an SKR shows)."""
+    out = []
+    for slot in range(1, len(sc.layout) + 1):
+        a = sc.schema[slot]
+        out.append({what: {sc.ksks[n]["label"] for n in a.get(what, [])} for what in ("publish", "sign", "revoke")})
+    return out
+
+
+def output_files(earlier_skr: bytes | None = None) -> list[tuple[str, bytes | None]]:
+    """What a ceremony may find at its output path: nothing, a short file, a file longer than any SKR, and — when the
+    history has one — an earlier SKR (the same path re-used quarter after quarter / a ceremony repeated over its own
+    result), also made longer than whatever will be written by a trailing comment."""
+    out: list[tuple[str, bytes | None]] = [("absent", None), ("short", SENTINEL), ("filler-300k", FILLER_300K)]
+    if earlier_skr:
+        out.append(("earlier-skr", earlier_skr))
+        out.append(("earlier-skr-longer", earlier_skr + b"<!-- " + b"x" * 9000 + b" -->\n"))
+    return out
